@@ -80,7 +80,7 @@ prop("C10", [LK.rule_lock_classes, LK.rule_AT1, LK.rule_AT2, LK.rule_AT3, LK.rul
      "AT2 (each balance read-modify-write is one critical section), AT3 (charge and store atomic against an identical concurrent submission), AT4 (a disconnection purges the Responder's index before collecting the trackers confirmed in that block, so a concurrent trigger is either collected or misses the block), AT5 (the purge of outdated users — selection, removal from memory, deletion of the rows — is one critical section of the users lock, so a registration is handled entirely before or entirely after it), LK0/LK1 (no two operations can wait on each other). "
      "NOT decided: equivalence of final states to some sequential order (needs execution).",
      technique="guard-liveness dataflow on MIR (lock sets), lock-order graph with thread-root reachability")
-prop("C11", [LK.rule_lock_classes, LK.rule_LK0, LK.rule_LK1, LK.rule_LK2, PN.rule_PN_tower, IX.rule_IXt, OUT.rule_OUT, LK.rule_AT5, RO.rule_OR2_gatekeeper, RO.rule_OR2_responder, SQ.rule_SQ4],
+prop("C11", [LK.rule_lock_classes, LK.rule_LK0, LK.rule_LK1, LK.rule_LK2, PN.rule_PN_tower, IX.rule_IXt, OUT.rule_OUT, LK.rule_AT5, RO.rule_OR2_gatekeeper, RO.rule_OR2_responder, SQ.rule_SQ4, SQ.rule_SQ8],
      STATIC + "Decided: no re-entrant acquisition (LK0), no lock-order cycle between concurrently runnable threads (LK1), condvar wait discipline (LK2), and every unwrap/expect reachable from an API or chain "
      "thread root classified: request-derived ones validated by the HTTP layer, replayed inserts guarded by an existence test in the same critical section, look-ups justified in the same critical section (PNt, "
      "each labelled with the locks held, i.e. what a panic would poison); index/slice/positional operations and explicit panic!/unreachable! on those paths are discharged by constants, length guards on every path or a closed variant set of the callee (IXt); every successful poll raises the reachability flag and notifies, whoever lowered it (OUT: the only waker of threads parked in the Carrier). NOT decided: absence of panics in general (sqlite I/O), liveness after arbitrary histories.",
